@@ -125,9 +125,9 @@ def cases(ctx, tier):
     NFIXED = 42
     for i, t in enumerate(ts[:NFIXED]):
         code = ' '.join(hx(c) for c in cxxgen.code(t))
-        for a0 in [-1, 1, 0, 2, -(1 << 63), 1 << 63, (1 << 63) - 1, 1 << 64]:
+        for a0 in [-1, 1, 0, 2, -(1 << 63), 1 << 63, (1 << 63) - 1, 1 << 64, -(1 << 63) - 1, -((1 << 64) - 1), (1 << 64) - 1, -(1 << 64), (1 << 63) + 1, -3]:
             for l in [-(1 << 63), (1 << 63) - 1, -1, 0]:
-                for u in [0, 1, (1 << 64) - 1]:
+                for u in [0, 1, (1 << 64) - 1, (1 << 63) + 1, 1 << 63]:
                     xh = rng.choice([-2, 3, 2 * (1 << 52)])
                     env = [a0, rng.choice([a0, 5, -7]), 3, -2]
                     blt = [l, u, int(abs(xh) // 2) * (1 if xh >= 0 else -1)] + [cxxgen.CONST_VALUE[k] for k in range(3, 13)]
